@@ -27,6 +27,7 @@ def run(ctx, crate):
     D.rule_width_source(ctx, crate)
     D.rule_line_kinds(ctx, crate)
     D.rule_every_line_painted(ctx, crate)
+    D.rule_overwrite_covers_row(ctx, crate)
     D.rule_shift_full_frame(ctx, crate)
     # "shows exactly the lines printed so far": println through the bar is never rate limited away
     from .c03 import rule_println_forced
